@@ -6,7 +6,7 @@ import tempfile
 from collections import defaultdict
 
 from engine import REPO, gen_states, pool_map
-from readers import join_lines, gaf_record, read_text, run_cli, write_text, workdir
+from readers import join_lines, gaf_record, read_text, run_cli, write_text, workdir, lines_of
 
 EXTRA = ["tp:A:P", "NM:i:-3", "zd:Z:a:b c#1"]
 
@@ -110,7 +110,7 @@ def run_graph(job):
                 break
         cases = []
         if status == "ok":
-            S, U2, S2 = (open(x).read().splitlines() for x in (s, u2, s2))
+            S, U2, S2 = (lines_of(open(x).read()) for x in (s, u2, s2))
             if not (len(S) == len(U2) == len(S2) == len(lines)):
                 status = "record_count"
         for wid, w, a, b in spans:
@@ -229,6 +229,24 @@ def run_mode(ctx, mode):
     njobs_enum = len(jobs)
     jobs += random_graph_jobs(rnd, 60 if not ctx.thorough else 600, mode)
     jobs += fixture_jobs(rnd, mode, 96 if not ctx.thorough else 960)
+    # scale: a reference contig of 2,400 short segments and walks over hundreds / all of them (recursion depth, quadratic
+    # scans and the like only show there); a handful of offsets per walk
+    NB = 2400 if mode == "C02" else 700      # (C01's validator compares loci base by base: quadratic in TLC)
+    bigsegs, so = {}, 0
+    for k in range(NB):
+        ln = 1 + (k * 7) % 3
+        bigsegs[f"b{k}"] = {"sn": "chr1", "so": so, "ln": ln, "sr": 0}
+        so += ln
+    bigsegs["balt"] = {"sn": HAPCTG, "so": 5, "ln": 4, "sr": 1}
+    order = [f"b{k}" for k in range(NB)]
+    bigwalks = []
+    for wi, (a, b, o) in enumerate([(0, NB, ">"), (0, NB, "<"), (NB // 4, 3 * NB // 4, ">"), (NB - 300, NB - 1, "<"), (0, 3, ">")]):
+        run = order[a:b]
+        w = [(o, x) for x in (run if o == ">" else run[::-1])]
+        plen = sum(bigsegs[x]["ln"] for _, x in w)
+        bigwalks.append((f"big{wi}", w, [(0, plen), (1, plen - 1), (0, 1), (plen - 1, plen)]))
+    bigwalks.append(("bigalt", [(">", "b10"), (">", "balt"), (">", "b12")], None))
+    jobs.append(("BIG", bigsegs, bigwalks, mode, "plain", False))
     # process in slices so that a thorough run (hundreds of thousands of (graph, walk) cases) stays within memory
     samples = []
     step = 120
